@@ -83,6 +83,14 @@ def mk_lines(kind: str, text: str, n: int) -> Tuple[Any, bool]:
         "junk_noresult": b'{"jsonrpc":"2.0","id":5}',
         "junk_nullid_result": b'{"jsonrpc":"2.0","id":null,"result":{}}',
         "junk_bool_id": b'{"jsonrpc":"2.0","id":true,"result":{"x":1}}',
+        # lines whose decoding fails in other ways than a JSON syntax error
+        "junk_deep_brackets": b"[" * 3000,
+        "junk_huge_int": b'{"jsonrpc":"2.0","id":' + b"9" * 5000 + b',"method":"ping"}',
+        "junk_nested_batch": b'[[{"jsonrpc":"2.0","id":1,"result":{"x":1}}],[]]',
+        "junk_nan": b'{"jsonrpc":"2.0","id":1,"result":{"a":NaN,"b":-Infinity}}',
+        "junk_err_badtypes": b'{"jsonrpc":"2.0","id":1,"error":{"code":"-32601","message":5}}',
+        "junk_err_listcode": b'{"jsonrpc":"2.0","id":2,"error":{"code":[1],"message":"m"}}',
+        "junk_method_int": b'{"jsonrpc":"2.0","id":3,"method":5}',
         "junk_float_id": b'{"jsonrpc":"2.0","id":1.5,"method":"ping"}',
         "ws_nel_prefixed": "\u0085{\"jsonrpc\":\"2.0\",\"method\":\"notifications/nel\"}".encode("utf-8"),
         "ws_ff_wrapped": b'\x0c{"jsonrpc":"2.0","method":"notifications/ff"}\x1c',
@@ -102,7 +110,9 @@ MSG_KINDS = ["note", "req", "resp", "err", "key", "batch", "resp_arr", "resp_str
              "req_noparams", "note_noparams", "resp_id0", "resp_idempty", "err_id0", "req_idneg"]
 JUNK_KINDS = ["junk_text", "junk_brace", "junk_scalar", "junk_string", "junk_null", "junk_obj", "junk_noresult",
               "junk_both", "junk_badutf8", "junk_badutf8_2", "junk_empty", "junk_spaces", "lenient_v1", "junk_trunc_utf8",
-              "junk_nullid_result", "junk_bool_id", "junk_float_id", "ws_nel_prefixed", "ws_ff_wrapped"]
+              "junk_nullid_result", "junk_bool_id", "junk_float_id", "ws_nel_prefixed", "ws_ff_wrapped",
+              "junk_deep_brackets", "junk_huge_int", "junk_nested_batch", "junk_nan", "junk_err_badtypes", "junk_err_listcode",
+              "junk_method_int"]
 
 
 def build_stream(spec: List[Tuple[str, str, str, bool]]) -> bytes:
@@ -131,10 +141,15 @@ def reference_framing(stream: bytes) -> Tuple[List[Tuple[Any, bool]], List[Tuple
         if not t:
             continue
         generous_only = False
+
+        def _no_constants(name):
+            raise ValueError(f"{name} is not JSON")
         try:
-            obj = json.loads(strict)
+            obj = json.loads(strict, parse_constant=_no_constants)
         except Exception:
             try:
+                # Python's own parser also takes NaN / Infinity and a more generous notion of surrounding whitespace:
+                # such a line is not JSON, the reader may drop it or tolerate it
                 obj = json.loads(t)
                 generous_only = True
             except Exception:
@@ -144,6 +159,15 @@ def reference_framing(stream: bytes) -> Tuple[List[Tuple[Any, bool]], List[Tuple
             continue
         for mobj in members:
             c = inbound_class(mobj)
+            if c == "invalid" and isinstance(mobj, dict) and isinstance(mobj.get("method"), (int, float)) \
+                    and not isinstance(mobj.get("method"), bool):
+                # the dependency-free validation backend turns a numeric member into text and lets the message through
+                # (pinned by the repository's own test_type_coercion): judged separately as a known finding, so the line
+                # is neither required nor forbidden here
+                coerced = dict(mobj, method=str(mobj["method"]))
+                n = norm_any(coerced)
+                read.append((n, False))
+                continue
             if c == "invalid":
                 continue
             n = norm_any(mobj)
@@ -194,7 +218,13 @@ def stream_specs(ctx) -> List[List[Tuple[str, str, str, bool]]]:
 def chunkings(ctx, stream: bytes, rng) -> List[Tuple[str, List[int]]]:
     n = len(stream)
     out: List[Tuple[str, List[int]]] = [("bytes", [])]
-    for c in range(1, n):
+    singles = list(range(1, n))
+    if n > 500 and ctx.tier == "quick":
+        # very long lines (thousands of digits / brackets): every cut next to a terminator or multi-byte character plus
+        # a seeded sample of the rest
+        keep = set(special_positions(stream)) | set(rng.sample(singles, 150))
+        singles = sorted(keep)
+    for c in singles:
         out.append(("bytes", [c]))
     sp = special_positions(stream)
     pairs = [(a, b) for i, a in enumerate(sp) for b in sp[i + 1:]]
@@ -217,7 +247,7 @@ def chunkings(ctx, stream: bytes, rng) -> List[Tuple[str, List[int]]]:
         text = stream.decode("utf-8")
         m = len(text)
         out.append(("str", []))
-        step = 1 if ctx.tier == "thorough" or m < 200 else 3
+        step = 1 if ctx.tier == "thorough" or m < 200 else (3 if m < 500 else max(3, m // 100))
         for c in range(1, m, step):
             out.append(("str", [c]))
         out.append(("str", list(range(1, m))))
@@ -265,6 +295,9 @@ def check_one(ctx, sid: int, spec, stream: bytes, mode: str, cuts: List[int], ba
                       f"only delivered after further data arrived (cuts {cuts[:8]}, mode {mode})", case)
     ctx.count("sessions")
     ctx.count("messages_delivered", len(read))
+    if b'"method":5' in stream and any(isinstance(r, tuple) and len(r) > 2 and r[2] == "5" for r in read):
+        ctx.violation("numeric_member_coerced_to_text_and_delivered", "a line whose method is the number 5 was delivered with "
+                      "method \"5\" (only the dependency-free backend does this)", case)
     exp_read, exp_notes = reference_framing(stream)
     ok, why = seq_match(read, exp_read)
     inside_char = False
